@@ -64,6 +64,10 @@ func vShift(sr *EventRecorder, d uint64) {
 }
 
 func TestVerif(t *testing.T) {
+	if os.Getenv("VERIF_PROP") == "C20loop" {
+		vRunLoop(t)
+		return
+	}
 	if os.Getenv("VERIF_PROP") != "C20rec" {
 		t.Skip()
 	}
